@@ -47,12 +47,25 @@ def identified(tid):
     return _IDF(tid)
 
 
-def build_impl(factory, edges):
-    """edges: list of (sub_curie, obj_curie). Returns the implementation graph (or raises)."""
+_SHARED_FACTORIES = {}
+_SHARED_HISTORY = {}        # the last few edge lists each shared factory was given (for self-contained replays)
+
+
+def build_impl(factory, edges, shared=False):
+    """edges: list of (sub_curie, obj_curie). Returns the implementation graph (or raises).
+    shared=True: one long-lived factory instance per class builds every graph (what the module-level default factories of the
+    loaders do); otherwise a fresh factory per graph."""
     _, TermId, _, F = _hp()
     el = [(TermId.from_curie(s), TermId.from_curie(o)) for s, o in edges]
     with warnings.catch_warnings():
         warnings.simplefilter('ignore')
+        if shared:
+            if factory not in _SHARED_FACTORIES:
+                _SHARED_FACTORIES[factory] = F[factory]()
+            h = _SHARED_HISTORY.setdefault(factory, [])
+            h.append([list(e) for e in edges])
+            del h[:-4]
+            return _SHARED_FACTORIES[factory].create_graph(el)
         return F[factory]().create_graph(el)
 
 
@@ -207,11 +220,13 @@ def exhaustive_graphs(k, label_sets):
 def random_labels(rng, n):
     pools = [lambda i: f'HP:{i:07d}', lambda i: f'HP:{i}', lambda i: f'MP:{i}', lambda i: f'A_B:{i}', lambda i: f'x:{i:02d}',
              lambda i: f'owl:T{i}', lambda i: f'ZZ:{i}', lambda i: f'HPX:{i}']
-    style = rng.choice(['hp7', 'mixed', 'hpnum'])
+    style = rng.choice(['hp7', 'mixed', 'hpnum', 'twins'])
     out = set()
     while len(out) < n:
         i = rng.randrange(1, 5 * n + 5)
-        if style == 'hp7':
+        if style == 'twins':       # few local ids under several prefixes: HP:3, MP:3, MAXO:3 ... differ in the prefix only
+            out.add(f'{rng.choice(["HP", "MP", "MAXO", "hp"])}:{rng.randrange(1, max(2, n // 2 + 1)):07d}')
+        elif style == 'hp7':
             out.add(pools[0](i))
         elif style == 'hpnum':
             out.add(pools[1](i))
@@ -274,9 +289,11 @@ def random_dag(rng, n=None, shape=None):
         if not edges:
             edges.add((1, 0))
     el = [(labels[a], labels[b]) for a, b in edges]
-    order = rng.choice(['shuffle', 'by_subject', 'by_object'])
+    order = rng.choice(['shuffle', 'by_subject', 'by_object', 'by_local_id'])
     if order == 'shuffle':
         rng.shuffle(el)
+    elif order == 'by_local_id':       # subjects that differ in the prefix only end up next to each other
+        el.sort(key=lambda e: (e[0].split(':', 1)[1], e[0], e[1]))
     elif order == 'by_subject':
         el.sort(key=lambda e: (e[0], e[1]))
     else:
